@@ -1,11 +1,14 @@
 // persist: C19.
 // Part A — restart restores the acknowledged state: generated histories over all types and several
-//   databases, a save (what the periodic saver and shutdown run), more in-place changes, deletions and
-//   flushes, a second save, then a restart on the same path: every database must hold exactly the keys,
-//   types, values, element order and deadlines the running emulator shows.
+//
+//	databases, a save (what the periodic saver and shutdown run), more in-place changes, deletions and
+//	flushes, a second save, then a restart on the same path: every database must hold exactly the keys,
+//	types, values, element order and deadlines the running emulator shows.
+//
 // Part B — crash atomicity: a callback (verif build tag) copies the persist directory at every stage
-//   of writing every snapshot file; each copy is loaded by a fresh emulator and must show, per
-//   database, either the previous or the new snapshot.
+//
+//	of writing every snapshot file; each copy is loaded by a fresh emulator and must show, per
+//	database, either the previous or the new snapshot.
 package main
 
 import (
